@@ -24,21 +24,35 @@ class Violation(Exception):
         self.payload = payload; self.nofail = nofail
 
 
-def banned_tokens_gate():
-    """No Admitted/admit/Axiom/Parameter/... anywhere in the development."""
-    pat = re.compile(r"\b(Admitted|admit|Axiom|Axioms|Parameter|Parameters|Conjecture|Hypothesis|Variable)\b|Unset Guard|bypass_check|type-in-type|impredicative-set")
+def strip_coq_comments(text):
+    """Remove (possibly nested) (* ... *) comments, keeping newlines so line numbers survive."""
+    out = []; depth = 0; i = 0; n = len(text)
+    while i < n:
+        if text.startswith("(*", i):
+            depth += 1; i += 2; continue
+        if depth and text.startswith("*)", i):
+            depth -= 1; i += 2; continue
+        ch = text[i]
+        if depth == 0 or ch == "\n":
+            out.append(ch)
+        i += 1
+    return "".join(out)
+
+
+def banned_tokens_gate(files=None):
+    """No Admitted/admit/Axiom/Parameter/... anywhere in the development (Variable/Hypothesis only in Sections)."""
+    pat = re.compile(r"\b(Admitted|admit|Axiom|Axioms|Parameter|Parameters|Conjecture|Conjectures|Hypothesis|Hypotheses|Variable|Variables|Context)\b|Unset Guard|bypass_check|type-in-type|impredicative-set|Admit Obligations")
     bad = []
-    for f in list((COQ).rglob("*.v")):
+    for f in (files if files is not None else list(COQ.rglob("*.v"))):
         depth = 0
-        for ln, line in enumerate(f.read_text().splitlines(), 1):
-            code = re.sub(r"\(\*.*?\*\)", "", line)
+        for ln, code in enumerate(strip_coq_comments(pathlib.Path(f).read_text()).splitlines(), 1):
             if re.match(r"\s*Section\b", code): depth += 1
             if re.match(r"\s*End\b", code) and depth > 0: depth -= 1
             m = pat.search(code)
             if m:
-                if m.group(1) in ("Hypothesis", "Variable", "Variables", "Hypotheses") and depth > 0:
+                if m.group(1) in ("Hypothesis", "Variable", "Variables", "Hypotheses", "Context") and depth > 0:
                     continue
-                bad.append(f"{f}:{ln}: {line.strip()}")
+                bad.append(f"{f}:{ln}: {code.strip()}")
     if bad:
         raise HarnessFault("banned declarations in the Coq development:\n" + "\n".join(bad[:20]))
 
@@ -96,6 +110,19 @@ def run_check(prop, tier, seed, replay=None):
         if not ok:
             raise HarnessFault(f"generated {t.gen_path} does not compile:\n{out[-2000:]}")
 
+    # 2b. property-specific regenerated artefacts (e.g. GF(2) terms of CRC kernels)
+    gen_broken = None
+    if hasattr(prop, "extra_gen"):
+        try:
+            for path in prop.extra_gen(bdir, tier):
+                ok, out, secs = core.coqc(path, extra_dirs=[(bdir, "Run")])
+                if not ok:
+                    raise HarnessFault(f"generated {path} does not compile:\n{out[-2000:]}")
+        except Exception as e:
+            if isinstance(e, HarnessFault):
+                raise
+            gen_broken = f"{type(e).__name__}: {e}"
+
     # 3. translator validation against Amaranth's simulator
     impl_traces = {}
     for t in targets:
@@ -107,6 +134,17 @@ def run_check(prop, tier, seed, replay=None):
 
     # 4. tie obligations: definitions + counterexample search
     obs = prop.obligations(targets, tier)
+    if gen_broken is not None:
+        # the regenerated model can no longer be expressed: the theorems cannot be re-checked.
+        # Look for a concrete failing input with the runtime oracles, else report no-failing-input-found.
+        imports = "".join(f"Require Import Run.{t.modname}.\n" for t in targets)
+        hdr0 = tiemod.HEADER + "".join(l + "\n" for l in getattr(prop, "TIE_IMPORTS", "").splitlines() if "Run." not in l) + imports
+        payload = correspond(prop, obs, impl_traces, bdir, hdr0, cov)
+        if payload is not None:
+            payload["reason"] = "model regeneration failed (" + gen_broken + ") and the implementation differs from the hand model"
+            raise Violation(payload, nofail=False)
+        raise Violation(dict(property=pid, reason="model regeneration failed: " + gen_broken +
+                             "; the tie theorems can no longer be stated"), nofail=True)
     imports = "".join(f"Require Import Run.{t.modname}.\n" for t in targets)
     defs_text = tiemod.HEADER + getattr(prop, "TIE_IMPORTS", "") + imports + "".join(o.defs for o in obs)
     (bdir / "Tie_defs.v").write_text(defs_text)
@@ -151,6 +189,12 @@ def run_check(prop, tier, seed, replay=None):
     cov["tie_thms_s"] = round(secs, 1)
     if not ok:
         payload = search_impl(prop, targets, obs, impl_traces, bdir, hdr, rng, tier)
+        if payload is None:
+            payload = correspond(prop, obs, impl_traces, bdir, hdr, cov)
+            if payload is not None:
+                payload["reason"] = "a tie theorem no longer checks and the implementation differs from the specification-satisfying hand model"
+                payload["coq_error"] = out[-800:]
+                raise Violation(payload, nofail=False)
         if payload is None:
             m = re.search(r'File "[^"]*Tie_thms.v", line (\d+)', out)
             raise Violation(dict(property=pid, reason="a tie theorem no longer checks against the regenerated model",
